@@ -353,10 +353,13 @@ def run(ck):
     # attributes_match: every template attribute must match (equal, or accepted by its predicate); ignored keys skipped
     rets = stmts_with_env(am, lambda s_: isinstance(s_, ast.Return))
     fl = [r for r in rets if try_fold(r[0].value, default=1) is False]
-    ok = len(fl) == 1 and try_fold(am.body[-1].value, default=0) is True
+    loops_fl = {id(molmod.enclosing(r[0], ast.For)) for r in fl}
+    ok = len(fl) >= 1 and len(loops_fl) == 1 and None not in loops_fl and try_fold(am.body[-1].value, default=0) is True
     if ok:
         lp = mod_enclosing = molmod.enclosing(fl[0][0], ast.For)
-        rel = stmts_with_env(am, lambda s_: s_ is fl[0][0], stmts=lp.body)
+        # one `return False` or several (guard clauses): the template is rejected when any of them is reached
+        rels = stmts_with_env(am, lambda s_: any(s_ is r[0] for r in fl), stmts=lp.body)
+        rel = [(None, flow.OR(*[r_[1] for r_ in rels]))]
         names = {}
         for k in flow.atoms_of(rel[0][1]):
             t = atom_text(k)
